@@ -84,6 +84,12 @@ func (g *Generate) Parse() error {
 		sort.Sort(values)
 		g.Values[i] = values
 
+		if g.CaseInsensitive {
+			if err := validateCaseInsensitiveNames(enumType, values); err != nil {
+				return err
+			}
+		}
+
 		if g.DisableTraits || len(values) == 0 {
 			continue
 		}
@@ -157,6 +163,23 @@ func validateParsableTraits(enumType string, traits TraitDescs) error {
 			}
 
 		}
+	}
+	return nil
+}
+
+// validateCaseInsensitiveNames returns an error if two names of an enum differ only by case.
+// Case-insensitive parsing cannot tell such names apart, and the generated switch over the
+// lower-cased names would contain the same case twice (which does not compile).
+func validateCaseInsensitiveNames(enumType string, values Values) error {
+	seen := make(map[string]string, len(values))
+	for _, v := range values {
+		lower := v.LowerCaseName()
+		if other, ok := seen[lower]; ok {
+			return fmt.Errorf(
+				"Enum: %s cannot be parsed case-insensitively because the names %s and %s "+
+					"differ only by case.", enumType, other, v.Name)
+		}
+		seen[lower] = v.Name
 	}
 	return nil
 }
